@@ -79,3 +79,55 @@ pub open spec fn example_verdict(r: Rule, y: Yaml) -> Option<bool> {
         None => None,
     }
 }
+
+// ---- slow_aho: the 64-bit bitmap counts each member once (C08)
+pub open spec fn bit(m: u64, q: u64) -> bool { (m >> q) & 1 == 1 }
+
+pub proof fn lemma_bit_or(m: u64, p: u64, q: u64)
+    requires p < 64, q < 64,
+    ensures bit(m | (1u64 << p), q) == (bit(m, q) || q == p),
+{
+    assert(((m | (1u64 << p)) >> q) & 1 == 1 <==> (((m >> q) & 1 == 1) || q == p)) by(bit_vector)
+        requires p < 64, q < 64;
+}
+
+pub proof fn lemma_bit_zero(q: u64)
+    requires q < 64,
+    ensures !bit(0, q),
+{
+    assert((0u64 >> q) & 1 == 0) by(bit_vector);
+}
+
+pub proof fn lemma_bit_val(m: u64, i: u64)
+    requires i < 64,
+    ensures (m >> i) & 1 == (if bit(m, i) { 1u64 } else { 0u64 }),
+{
+    assert((m >> i) & 1 == 0 || (m >> i) & 1 == 1) by(bit_vector);
+}
+
+// member p has an accepted occurrence among the first c reported ones
+pub open spec fn seen(a: &AhoCorasick, m: Seq<MatchType>, v: Seq<char>, c: int, p: int) -> bool {
+    exists|k: int| 0 <= k < c && k < ac_hits(a, v).len() && pid(ac_pattern(#[trigger] ac_hits(a, v)[k])) == p && ac_accepts(m, ac_hits(a, v)[k], v)
+}
+
+pub proof fn lemma_seen_step(a: &AhoCorasick, m: Seq<MatchType>, v: Seq<char>, c: int, p: int)
+    requires 0 <= c < ac_hits(a, v).len(),
+    ensures seen(a, m, v, c + 1, p) == (seen(a, m, v, c, p) || (pid(ac_pattern(ac_hits(a, v)[c])) == p && ac_accepts(m, ac_hits(a, v)[c], v))),
+{
+    if seen(a, m, v, c + 1, p) {
+        let k = choose|k: int| 0 <= k < c + 1 && k < ac_hits(a, v).len() && pid(ac_pattern(#[trigger] ac_hits(a, v)[k])) == p && ac_accepts(m, ac_hits(a, v)[k], v);
+        if k < c { assert(seen(a, m, v, c, p)); }
+    }
+    if seen(a, m, v, c, p) {
+        let k = choose|k: int| 0 <= k < c && k < ac_hits(a, v).len() && pid(ac_pattern(#[trigger] ac_hits(a, v)[k])) == p && ac_accepts(m, ac_hits(a, v)[k], v);
+        assert(0 <= k < c + 1);
+    }
+    if pid(ac_pattern(ac_hits(a, v)[c])) == p && ac_accepts(m, ac_hits(a, v)[c], v) {
+        assert(0 <= c < c + 1);
+    }
+}
+
+pub proof fn lemma_seen_all(a: &AhoCorasick, m: Seq<MatchType>, v: Seq<char>, p: int)
+    ensures seen(a, m, v, ac_hits(a, v).len() as int, p) == pat_hit(a, m, v, p),
+{
+}
